@@ -548,6 +548,19 @@ func (z *zoneFlow) refine(d *dbm, cond ssa.Value, taken bool) {
 			if s.ok && p.ok && s.n < d.n && p.n < d.n {
 				d.add(p.n, s.n, s.off-p.off)
 			}
+			// s contains the constant non-empty separator p: strings.Split(s, p) has at least two elements
+			if sep, ok := constString(c.Call.Args[1]); ok && sep != "" {
+				cs, cp := z.cz.of(c.Call.Args[0]), z.cz.of(c.Call.Args[1])
+				eachInstr(z.fn, func(b2 *ssa.BasicBlock, in2 ssa.Instruction) {
+					if c2, ok := in2.(*ssa.Call); ok && isCallTo(&c2.Call, "strings.Split") {
+						if z.cz.of(c2.Call.Args[0]) == cs && z.cz.of(c2.Call.Args[1]) == cp {
+							if t := z.lenTerm(c2); t.ok && t.n < d.n {
+								d.add(0, t.n, t.off-2)
+							}
+						}
+					}
+				})
+			}
 		}
 	}
 }
